@@ -661,6 +661,9 @@ PREFIX_BYTES = {b for p in events.KEYMAP_PREFIXES for b in p}      # bytes a pen
 FILLER = next(bytes([c]) for c in range(0x20, 0x7F) if c not in PREFIX_BYTES)
 
 
+LONG_KEYS = [k for k in ESC_KEYS if len(k) >= 6]
+
+
 def _stream(rng, enc, ntok, last=None):
     """bytes of ntok tokens, as a token list.  A byte >= 0x80 never directly follows a byte that can end a
     pending member of KEYMAP_PREFIXES (that pattern is finding F-C03, reported under C03); `last` = the byte
@@ -828,17 +831,24 @@ class _Gen:
                 "lazy_ts": self.ntrig == 1 and rng.random() < 0.6}
 
 
-def _burst_case(rng, size):
-    """one multi-kilobyte burst of multi-byte characters and escape sequences"""
+def _burst_case(rng, size, mode=None, long_tokens=False):
+    """one multi-kilobyte burst of multi-byte characters and escape sequences; with long_tokens mostly the LONGEST
+    table sequences (6-7 bytes), so that some straddle every 1024-byte read boundary with most of their bytes on
+    the near side"""
     g = _Gen(rng, "quick", "burst")
     g.enc = "utf-8"
     g.inside = False
+    if mode is not None:
+        g.mode = mode
     for _ in range(rng.choice([0, 1, 3])):
         g.hist += [["env", s] for s in g.inject()]
     toks = []
     n = 0
     while n < size:
-        t = _stream(rng, "utf-8", 8, toks[-1][-1] if toks else g.last)
+        if long_tokens and rng.random() < 0.8:
+            t = [rng.choice(LONG_KEYS) for _ in range(4)]
+        else:
+            t = _stream(rng, "utf-8", 8, toks[-1][-1] if toks else g.last)
         toks += t
         n += sum(len(x) for x in t)
     data = b"".join(toks)
@@ -893,7 +903,19 @@ def _sched_case(rng):
     return g.build(0, 12)
 
 
+def _late_trigger_cases():
+    """a threadsafe trigger that is created only after requests have already waited, and whose callback then fires
+    while a request is blocked"""
+    for threaded in (False, True):
+        for t, tail in ((5, [["tick", 1], ["ts", 0, 2001]]), (None, [["ts", 0, 2001]]), (3, [["late", 1]])):
+            hist = [["req", 0, []], ["req", 2, [["tick", 2]]], ["req", t, tail], ["env", ["ts", 0, 2002]],
+                    ["req", 4, [["tick", 1], ["ts", 0, 2003]]], ["env", ["tick", 50]], ["req", 0, []], ["req", 0, []], ["req", 0, []]]
+            yield {"enc": "utf-8", "mode": "bytes", "paste": None, "ntrig": 1, "nev": 1, "threaded": threaded,
+                   "hist": hist, "early": 0, "dtss": False, "lazy_ts": True}
+
+
 def generate(rng, tier):
+    yield from _late_trigger_cases()
     n = 2500 if tier == "thorough" else 330
     for i in range(n):
         if i % 8 == 7:
@@ -904,6 +926,13 @@ def generate(rng, tier):
     sizes = [300, 1100, 2500, 5000, 8192] * (6 if tier == "thorough" else 1)
     for size in sizes:
         yield _burst_case(rng, size)
+    # the same under every naming mode, made mostly of the longest sequences of either table
+    for mode in ["bytes", "curtsies", "curses"]:
+        for size in ([2500, 5000, 5000, 8192] if tier != "thorough" else [1100, 2500, 5000, 8192, 5000] * 3):
+            c = _burst_case(rng, size, mode, long_tokens=True)
+            if c["paste"] is None:
+                c["paste"] = rng.choice([1, 8, 100])
+            yield c
 
 
 def shrink(inp):
